@@ -80,6 +80,7 @@ func (its *ordaMap) ExecuteRemote(op interface{}) (interface{}, errors.OrdaError
 }
 
 func (its *ordaMap) Put(key string, value interface{}) (interface{}, errors.OrdaError) {
+	key = types.NormalizeKey(key)
 	if key == "" || value == nil {
 		return nil, errors.DatatypeIllegalParameters.New(its.L(), "neither empty key nor null value is not allowed")
 	}
@@ -93,10 +94,11 @@ func (its *ordaMap) Put(key string, value interface{}) (interface{}, errors.Orda
 }
 
 func (its *ordaMap) Get(key string) interface{} {
-	return its.snapshot().get(key)
+	return its.snapshot().get(types.NormalizeKey(key))
 }
 
 func (its *ordaMap) Remove(key string) (interface{}, errors.OrdaError) {
+	key = types.NormalizeKey(key)
 	if key == "" {
 		return nil, errors.DatatypeIllegalParameters.New(its.L(), "empty key is not allowed")
 	}
